@@ -190,9 +190,6 @@ def compare(case, obs, model, probes):
                     want.setdefault(PEER_TASK[m[2]], []).append("fin" if m[0] == 1 else "rst")
             for task, kinds in want.items():
                 e = peer_end(obs, task, cinc)
-                if (e is None and task == "C" and case["cfg"].get("tcp_capacity", 64) < 3
-                        and c_data_in_flight(case, obs, cinc, before["elapsed"])):
-                    continue      # known finding WriterBlockedFullWindow (what fix df5434b left of it): data in flight at the crash
                 if e is None:
                     return "event %d (%s n0): model sends %s for the stream of client task %s, the task never saw its stream end" % (k, name, kinds, task)
                 if e[2] < k:
